@@ -6,6 +6,7 @@ sys.path.insert(0, VERIF)
 ALL = ['C%02d' % i for i in range(1, 21)]
 NA_REASONS = json.load(open(os.path.join(VERIF, 'not_applicable.json')))
 checks, na = [], []
+SERVES = {'E1': set(), 'E2': set(), 'E3': set()}
 for pid in ALL:
     try:
         spec = importlib.import_module('verifpw.props.' + pid.lower())
@@ -15,6 +16,8 @@ for pid in ALL:
         na.append({'property_id': pid, 'reason': NA_REASONS.get(pid, 'no sound solver-based harness built yet for this property')})
         continue
     c = spec.CLAIM
+    for h in spec.HARNESSES:
+        SERVES['E1' if h['engine'] == 'crosshair' else 'E3' if '.bmc.' in h['module'] else 'E2'].add(pid)
     checks.append({
         'property_id': pid,
         'quick_cmd': 'bin/check %s --tier quick' % pid,
@@ -33,8 +36,12 @@ man = {
               'baseline_off_cmd': 'cd /repo && /venv/bin/python -m pytest -ra -q -p no:cacheprovider --timeout=900 --continue-on-collection-errors',
               'source_commits': [], 'add_only': True},
     'engines': [
-        {'name': 'E1-crosshair', 'path': 'verifpw/ch_driver.py', 'serves_properties': [c['property_id'] for c in checks],
+        {'name': 'E1-crosshair', 'path': 'verifpw/ch_driver.py', 'serves_properties': sorted(SERVES['E1']),
          'kind_free_text': 'CrossHair 0.0.110 symbolic execution (z3) of the real pywbem modules, one process per harness partition'},
+        {'name': 'E2-astz3', 'path': 'verifpw/astz3', 'serves_properties': sorted(SERVES['E2']),
+         'kind_free_text': 'own symbolic interpreter over the current AST of the kernel functions on z3 (strings as code-point lists, regex/int/float/datetime contracts), differential against reference functions, every model cross-validated natively'},
+        {'name': 'E3-bmc', 'path': 'verifpw/bmc', 'serves_properties': sorted(SERVES['E3']),
+         'kind_free_text': 'listener thread programs compiled from the current AST; z3 (QF_BV) round-robin sequentialisation over all schedules within R rounds; counterexample schedules replayed on real threads'},
     ],
     'checks': checks,
     'not_applicable': na,
